@@ -158,6 +158,10 @@ class _Graph:
                 self.build(child, m)
 
     def dedicated(self, m: int) -> bool:
+        # the grid meter (sole successor of the grid connection) is never a device meter, whatever is below it:
+        # it may carry unmetered load (component_graph.is_*_meter all exclude it)
+        if self.children[1] == [m]:
+            return False
         kinds = {self.kind[c] for c in self.children[m]}
         return len(kinds) == 1 and kinds <= {"batinv", "pvinv", "ev", "chp"}
 
